@@ -28,6 +28,12 @@ AlgOK(e, U, From) ==
   /\ Len(e.r) = 2 * (Cardinality(U) + 1)
   /\ e.pn = ""
 
+ParAlgOK(e, U, From) ==
+  /\ Len(e.y) = Cardinality(U)
+  /\ {y[1] : y \in SeqToSet(e.y)} = U
+  /\ \A y \in SeqToSet(e.y) : \E x \in From : x[1] = y[1] /\ x[2] = y[2]
+  /\ e.pn = ""
+
 RECURSIVE AbsSetExtend(_, _, _, _)
 AbsSetExtend(A, ys, ph, dr) ==
   IF ys = <<>> THEN [A |-> A, dr |-> dr]
@@ -78,6 +84,14 @@ AbsSetOp(e, A, B, ph) ==
     [] e.op = "difference" -> AR(A, {}, AlgOK(e, Cls(A) \ Cls(B), A))
     [] e.op = "symmetric_difference" ->
          AR(A, {}, AlgOK(e, (Cls(A) \ Cls(B)) \cup (Cls(B) \ Cls(A)), {z \in A : z[1] \notin Cls(B)} \cup {z \in B : z[1] \notin Cls(A)}))
+    [] e.op = "par_is_subset" -> same(<<b(Cls(A) \subseteq Cls(B))>>)
+    [] e.op = "par_is_superset" -> same(<<b(Cls(B) \subseteq Cls(A))>>)
+    [] e.op = "par_is_disjoint" -> same(<<b(Cls(A) \cap Cls(B) = {})>>)
+    [] e.op = "par_union" -> AR(A, {}, ParAlgOK(e, Cls(A) \cup Cls(B), A \cup B))
+    [] e.op = "par_intersection" -> AR(A, {}, ParAlgOK(e, Cls(A) \cap Cls(B), A \cup B))
+    [] e.op = "par_difference" -> AR(A, {}, ParAlgOK(e, Cls(A) \ Cls(B), A))
+    [] e.op = "par_symmetric_difference" ->
+         AR(A, {}, ParAlgOK(e, (Cls(A) \ Cls(B)) \cup (Cls(B) \ Cls(A)), {z \in A : z[1] \notin Cls(B)} \cup {z \in B : z[1] \notin Cls(A)}))
     \* assigning forms that only remove: exact
     [] e.op = "and_assign" ->
          LET gone == {z \in A : z[1] \notin Cls(B)} IN AR(A \ gone, {z[2] : z \in gone}, e.pn = "")
@@ -147,7 +161,9 @@ SetOp(e, t, src, ph, env) ==
     [] e.op = "sub_assign" ->
          IF src.items < t.items THEN R(SubLoop(t, src, AscFull(src), ph), 0, "ok", {})
          ELSE R(EraseSeq(t, AscFull(t), {i \in FullIdx(t) : t.data[i][1] \notin clsB}), 0, "ok", {})
-    [] e.op \in {"is_subset", "is_superset", "is_disjoint", "union", "intersection", "difference", "symmetric_difference"} ->
+    [] e.op \in {"is_subset", "is_superset", "is_disjoint", "union", "intersection", "difference", "symmetric_difference",
+                 "par_is_subset", "par_is_superset", "par_is_disjoint", "par_union", "par_intersection", "par_difference",
+                 "par_symmetric_difference", "par_eq"} ->
          R(t, 0, "ok", {})
     [] OTHER -> MapOp(e, t, ph, env)
 =============================================================================
